@@ -6,7 +6,7 @@ from .common import *
 
 META = {
     'title': 'block ciphers: tables vs derived/standard constants, round/key-schedule terms vs restatements of the standards, size guards, GF(2^8) multiplication tabulated',
-    'expected_min': 60,
+    'expected_min': 178,
     'explanation': 'AES S-boxes/Exp/Log/Rcon are recomputed from GF(2^8) arithmetic, DES/Serpent/Threefish tables come from the '
                    'standards (DES IP/E/PC1 from closed forms) and are compared with the tables folded from the AST; every function of '
                    'the five cipher modules is normalised and compared with a restatement of the standard (round sequence, key schedule '
